@@ -15,6 +15,7 @@
 (*             clause tokens: LexText(text) = Tokens(f)                    *)
 (*             clause shape : ReadText(text) has the shape of f            *)
 (*   "redup" : f, g (forests with identities): ReduplicateOK(f, g)         *)
+(*   "idhist": h (per-process sequences of node ids): IdCounter!HistoryOK   *)
 (*   "subst" : f, ids (seq of [id, repl]), sts (seq of [key, repl]),       *)
 (*             decls, g: tokens of g = tokens of the specified result and  *)
 (*             base identities kept                                        *)
@@ -81,7 +82,16 @@ VerdictDecl(c) ==
             THEN "before"
        ELSE "ok"
 
+(* "idhist": h = per-process sequences of node ids handed out to          *)
+(* concurrently running processes; accepted iff IdCounter.tla can produce  *)
+(* them (IdCounter!HistoryOK)                                              *)
+IC == INSTANCE IdCounter WITH Procs <- {}, MaxAlloc <- 0, ReadUnderLock <- TRUE,
+                              counter <- 0, lock <- 0, pc <- 0, got <- 0,
+                              local <- 0
+VerdictIdHist(c) == IF IC!HistoryOK(c.h) THEN "ok" ELSE "ids"
+
 Verdict(c) == CASE c.kind = "render" -> VerdictRender(c)
+                [] c.kind = "idhist" -> VerdictIdHist(c)
                 [] c.kind = "decl"   -> VerdictDecl(c)
                 [] c.kind = "redup"  -> VerdictRedup(c)
                 [] c.kind = "subst"  -> VerdictSubst(c)
